@@ -322,8 +322,7 @@ def op_name(n: ast.AST) -> str:
 	return ''
 
 
-UNDERSTOOD = {'factor-on-bool', 'bitwise-bool-int', 'tuple-slice', 'list-literal-shared-union', 'template-union-first-member',
-	'dict-get-missing-key', 'list-literal-class-dedup'}
+UNDERSTOOD = {'dict-get-missing-key', 'list-literal-class-dedup'}   # listed as known; the other names below are repaired (listed as fixed)
 
 GENERIC_OF_UNION = re.compile(r'(list|dict|tuple|Iterator|ItemsView|Pair)<[^<>]*(<[^<>]*>[^<>]*)*Union<')
 
